@@ -43,6 +43,7 @@ def check_sampler(kind, br):
         else:
             op = sh_C03.build(kind, br)
         Dm = spec.D(op)
+        c.assume(Dm.shape[-1] == Dm.shape[-2])  # sampling is defined for square (PSD) operators
         k = sym.sym_int("num_samples", 1)
         n0 = len(c.events)
         samples = op.zero_mean_mvn_samples(k)
